@@ -99,7 +99,7 @@ func (p *syncProcessor) blockChainPieceReqHandler(m notify.Message) {
 	}
 	err := chainPieceReq.SignInfo.ValidateSign(chainPieceReq)
 	if err != nil {
-		syncHandleLogger.Errorf("Sign verify error! BlockChainPieceReqMessage:%s", e.Error())
+		syncHandleLogger.Errorf("Sign verify error! BlockChainPieceReqMessage:%s", err.Error())
 		return
 	}
 
